@@ -266,15 +266,19 @@ class FakePool:
         return fut
 
 
+DEFAULT_EXECUTOR_WORKERS = 5  # min(32, (os.cpu_count() or 1) + 4) on a one-CPU machine
+
+
 class FakeLoop:
     def __init__(self, world: "World"):
         self.world = world
 
     def run_in_executor(self, executor: Any, func: Callable[..., Any], *args: Any) -> FakeFuture:
         if executor is None:
-            # the event loop's default executor: min(32, cpus + 4) workers, shared by everything running in the loop
+            # the event loop's default executor: min(32, cpus + 4) workers, shared by everything running in the loop;
+            # the model takes the smallest machine (one CPU)
             if self.world.default_pool is None:
-                self.world.default_pool = FakePool(self.world, 32)
+                self.world.default_pool = FakePool(self.world, DEFAULT_EXECUTOR_WORKERS)
             executor = self.world.default_pool
         if not isinstance(executor, FakePool):
             raise HarnessError("run_in_executor with an executor that is not modelled: %r" % (executor,))
